@@ -245,10 +245,32 @@ fn builder_op(rng: &mut Prng, msg: &mut MarshalledMessage, out: &mut Out) -> (St
             (format!("P:f1|f1|{}", if last_ok { "f1" } else { "f0" }), Some(r))
         }
         _ => {
-            // a struct (u32, taken fd): fails after 4 bytes were written — rendered for the model as a failing item
-            out.hit("op_push_struct_with_taken_fd");
+            // ONE value pushed with a single push_param that fails after part of it was marshalled — rendered for the model as a
+            // failing item: a struct (u32, taken fd) fails after 4 bytes; a struct / an array that starts with good
+            // descriptors (already duplicated into the body's list) and ends with a taken one or a NUL string
             let t = taken_fd();
-            let r = msg.body.push_param((7u32, &t)).is_ok();
+            let r = match rng.below(4) {
+                0 => {
+                    out.hit("op_push_struct_with_taken_fd");
+                    msg.body.push_param((7u32, &t)).is_ok()
+                }
+                1 => {
+                    out.hit("op_push_struct_good_fds_then_taken");
+                    let (a, b) = (good_fd(), good_fd());
+                    msg.body.push_param((&a, &b, &t)).is_ok()
+                }
+                2 => {
+                    out.hit("op_push_array_good_fds_then_taken");
+                    let (a, b) = (good_fd(), good_fd());
+                    let v = vec![a, b, t.clone()];
+                    msg.body.push_param(&v[..]).is_ok()
+                }
+                _ => {
+                    out.hit("op_push_struct_good_fd_then_nul_string");
+                    let a = good_fd();
+                    msg.body.push_param((&a, 9u64, "a\0b")).is_ok()
+                }
+            };
             ("P:f0".into(), Some(r))
         }
     }
@@ -387,8 +409,16 @@ fn pstate(p: &rustbus::message_builder::MessageBodyParser) -> String {
 fn parser_history(out: &mut Out, rng: &mut Prng, len: usize) {
     let bo = *rng.pick(&ORDERS);
     let mut msg = MarshalledMessage::with_byteorder(bo);
+    // DIRECTED histories (one in five): a body of a random first value followed by y, s, t, u, read by a script in which
+    // dynamic gets alternate with multi-gets that fail after zero, one or two inner values were already decoded
+    let directed = rng.chance(1, 5);
+    let script: Vec<u64> = if directed { vec![9, 10, 9, 11, 12, 9, 12, 9, 9, 9] } else { vec![] };
+    let len = if directed { script.len() } else { len };
+    if directed {
+        out.hit("parser_history_directed");
+    }
     // a body from the same menu the gets use, so that matches are frequent
-    let n = rng.range(0, 5);
+    let n = if directed { 1 } else { rng.range(0, 5) };
     for _ in 0..n {
         match rng.below(8) {
             0 => msg.body.push_param(u8::gen(rng, 0)).unwrap(),
@@ -401,10 +431,16 @@ fn parser_history(out: &mut Out, rng: &mut Prng, len: usize) {
             _ => msg.body.push_variant(u32::gen(rng, 0)).unwrap(),
         }
     }
+    if directed {
+        msg.body.push_param(u8::gen(rng, 0)).unwrap();
+        msg.body.push_param(String::gen(rng, 0)).unwrap();
+        msg.body.push_param(u64::gen(rng, 0)).unwrap();
+        msg.body.push_param(u32::gen(rng, 0)).unwrap();
+    }
     let mut gets = Vec::new();
     let mut obs = Vec::new();
     let mut p = msg.body.parser();
-    for _ in 0..len {
+    for step in 0..len {
         let before = pstate(&p);
         macro_rules! g1 {
             ($t:ty) => {{
@@ -415,7 +451,8 @@ fn parser_history(out: &mut Out, rng: &mut Prng, len: usize) {
                 }
             }};
         }
-        let (r, ok) = match rng.below(14) {
+        let kind = script.get(step).copied().unwrap_or_else(|| rng.below(14));
+        let (r, ok) = match kind {
             0 => g1!(u8),
             1 => g1!(u32),
             2 => g1!(u64),
@@ -535,7 +572,7 @@ pub fn run(cfg: &Cfg) {
     }
     let _ = ByteOrder::LittleEndian;
     out.finish(
-        "bodies: fresh, from_parts behind 8/16/24 foreign bytes (buf_offset != 0), continued on the received copy after a trip over the wire (body behind the header in one buffer), started with 247..258 single bytes (signature crossing 255 characters); random histories over 16 builder operations (push_param of 8 typed kinds, &str with NUL, a struct / an array failing at an inner element after partial output, push_param2..5 and push_params with a NUL string at any position, push_variant, push_old_param(s) with a poisoned leaf, valid / taken descriptors, three descriptors of which the last is taken or cannot be duplicated any more (EMFILE injected by an element marshalled before it), a struct with a taken descriptor, reset): after every operation buffer, signature, descriptor count and validate() are observed; parser histories over 14 get kinds (9 single types, get_param, get2/3/4) on bodies drawn from the same menu, and on bodies with one flipped bit; distinct by request",
+        "bodies: fresh, from_parts behind 8/16/24 foreign bytes (buf_offset != 0), continued on the received copy after a trip over the wire (body behind the header in one buffer), started with 247..258 single bytes (signature crossing 255 characters); random histories over 16 builder operations (push_param of 8 typed kinds, &str with NUL, a struct / an array failing at an inner element after partial output, push_param2..5 and push_params with a NUL string at any position, push_variant, push_old_param(s) with a poisoned leaf, valid / taken descriptors, three descriptors of which the last is taken or cannot be duplicated any more (EMFILE injected by an element marshalled before it), a struct with a taken descriptor, reset): after every operation buffer, signature, descriptor count and validate() are observed; parser histories over 14 get kinds (9 single types, get_param, get2/3/4) on bodies drawn from the same menu (one in five directed: dynamic gets alternating with multi-gets that fail after 0, 1 or 2 inner values were decoded), and on bodies with one flipped bit; distinct by request",
         false,
     );
 }
